@@ -26,6 +26,7 @@ def run(tier):
         'symbolic constant leave the list/tuple/row object passed by the caller exactly as it was. TseitinFormula charges, bipartite_shift '
         'patterns (also the shared default list) and every graph passed to a graph-taking generator keep all their public views.')
     run.bounds = ['inputs: %s of the 303 small CNFs' % ('one in eight' if tier == 'quick' else 'all'), '62 first transformations x (none + 7 second ones)', 'long chains of 1..23 cheap steps (flip / or 1 / shuffle fixed / xor 1) on 10 inputs', 'builders: 3 literals, constant unbounded', 'graphs: all simple graphs / dags on <=4 vertices (6 edge bits)']
+    run.bounds += ['planted_assignments lists of different lengths/orders under fallback-forcing streams (object identities compared)', 'networkx arguments with unsortable mixed labels', 'the input is extended after the call: the result already returned does not change']
     run.outside = ['larger formulas, chains longer than two', 'the "none" transformation (documented to return the same object)']
     run.assumptions = ['CrossHair models of list/tuple mutation']
     T = 300 if tier == 'quick' else 1200
